@@ -1405,3 +1405,139 @@ def pg_scan_sampling_tick(ctx, tag):
             else:
                 ctx.check(prev_t, "kill_by_pg_scan:kills-only-with-previous-sample", "return_table", f.loc(r), "the kill cycle runs only with a sample from the previous tick",
                           "the kill cycle can run without a sample from the previous tick")
+
+
+# presence tests on optional numbers are the normal way to handle an unavailable statistic; for a boolean the same spelling reads as the value
+_ARITH_OPT = re.compile(r"^(const )?std::optional<bool>$")
+
+
+def presence_tests_without_value_read(prog, fn):
+    """[(node, expression text, type)]: a std::optional<bool> that `fn` tests for *presence* (contextual conversion to
+    bool / has_value()) while nothing in fn or its closures ever reads its value (`*x`, x.value(), x.value_or(..)), compares it or passes it
+    on.  For a boolean option that means 'given' is taken for 'true': an explicit `false` switches the behaviour on."""
+    scope = [fn] + [g for g in prog.fns.values() if g.d.get("parentfn") == fn.usr]
+    tests, reads = [], set()
+    for g in scope:
+        for i, n in enumerate(g.nodes):
+            if n["k"] != "call" or "recv" not in n:
+                continue
+            cal = n.get("callee") or ""
+            if not cal.startswith("std::optional<"):
+                continue
+            rt = g.nodes[g.strip(n["recv"])].get("type") or ""
+            et = g.text(n["recv"])
+            if cal.endswith("::operator bool") or cal.endswith("::has_value"):
+                if _ARITH_OPT.match(rt.strip()):
+                    tests.append((g, i, et, rt))
+            elif cal.endswith("::value") or cal.endswith("::value_or") or cal.endswith("::operator*") or cal.endswith("::operator->"):
+                reads.add(et)
+        for i, n in enumerate(g.nodes):
+            # any other use of the optional as a whole (passed on, assigned from, compared, returned) may read the value elsewhere
+            if n["k"] in ("ref", "member") and _ARITH_OPT.match((n.get("type") or "").strip()):
+                par = g.parent.get(i)
+                hops = 0
+                while par is not None and g.nodes[par]["k"] in ("paren", "implicit", "cast", "other") and hops < 6 and g.nodes[par].get("cls") not in ("InlinedCall",):
+                    par = g.parent.get(par)
+                    hops += 1
+                pn = g.nodes[par] if par is not None else None
+                if pn is None:
+                    continue
+                if pn["k"] == "call" and (pn.get("callee") or "").startswith("std::optional<") and g.strip(pn.get("recv", -1)) == i:
+                    continue
+                if pn["k"] == "bin" and pn.get("op") == "=" and g.strip(pn.get("l", -1)) == i:
+                    continue            # being assigned to
+                reads.add(g.text(i))
+    return [(g, i, et, rt) for g, i, et, rt in tests if et not in reads]
+
+
+def prerun_walk_visits_every_cgroup(ctx):
+    """C09: BaseKillPlugin::prerunOnCgroups hands EVERY cgroup it takes off its work list to the sampling functor -
+    one call per iteration on every path.  The rate-based kill plugins (and CgroupContext's one-tick archive) rely on 'every cgroup in
+    scope is sampled on every tick': a cgroup that is skipped on tick N has no previous sample on tick N+1 and ranks as if its counter
+    had not moved (or is filtered out), whatever it did in between."""
+    P = ctx.prog
+    fs = [f for f in P.fns.values() if f.pq == "Oomd::BaseKillPlugin::prerunOnCgroups"]
+    ctx.counters["prerun_walk_instances"] = len(fs)
+    ctx.floor("prerun_walk_instances", 2, "instantiations of BaseKillPlugin::prerunOnCgroups")
+    for f in sorted(fs, key=lambda x: x.usr):
+        ctx.use(f)
+        fparam = [p_["decl"] for p_ in f.params if "&&" in (p_.get("type") or "") or "Functor" in (p_.get("type") or "") or "lambda" in (p_.get("type") or "")]
+        calls = []
+        for i in f.calls():
+            n = f.nodes[i]
+            fe = n.get("fnexpr")
+            rc = n.get("recv")
+            for x in (fe, rc):
+                if x is not None and x >= 0:
+                    xn = f.nodes[f.strip(x)]
+                    if xn.get("k") == "ref" and xn.get("dk") == "param" and (xn.get("decl") in fparam or xn.get("name") == "fn"):
+                        calls.append(i)
+        tag = (re.search(r"<#\$@N@Oomd@S@(\w+)>", f.usr) or re.search(r"(\w+)", f.usr)).group(1)
+        ls = [l for l in loops(f) if any(f.pos_of(c) is not None and f.pos_of(c)[0] in l["body"] for c in calls)]
+        if len(ls) != 1 or not calls:
+            ctx.broken("prerun-walk-samples-every-cgroup:" + tag, "anchor", f.loc(), "expected one loop in prerunOnCgroups that calls the sampling functor")
+            continue
+        L = ls[0]
+        fl = iter_flow(ctx, f, L, {c: [("set", "sampled")] for c in calls})
+        ok = True
+        for b in back_sources(L):
+            for st_ in (fl.OUT.get(b) or {}).values():
+                if "sampled" not in st_.must:
+                    ok = False
+        ctx.check(ok, "prerun-walk-samples-every-cgroup:" + tag, "per-iteration exactly-once", f.loc(L["stmt"]) if L.get("stmt") is not None else f.loc(),
+                  "every cgroup taken off the work list is handed to the sampling functor",
+                  "an iteration of prerunOnCgroups can end without calling the sampling functor: a cgroup skipped on one tick (e.g. while it is "
+                  "empty) has no previous sample on the next and ranks as if its counter had not moved")
+
+
+_FD_CONSUMERS = ("close", "fdopendir", "fdopen", "closedir")
+
+
+def borrowed_fd_not_consumed(ctx):
+    """Ownership rule shared by C01, C10 and C15: a descriptor read out of a Fd/DirFd that the function only BORROWS (a reference parameter)
+    is never handed to something that consumes it - close(), fdopendir() (closedir() closes it), fdopen().  The cached CgroupContext keeps
+    that descriptor number; once it is closed the next open() reuses the number and the context silently aliases another cgroup: its
+    cgroup.procs is read, its cgroup.kill / memory.* are written."""
+    P = ctx.prog
+    n_sites = 0
+    BORROWED = re.compile(r"^\(?param:\w+(\.|->)fd\(\)\)?$")
+    for f in sorted(P.fns.values(), key=lambda x: x.usr):
+        if not f.file.startswith("oomd/") or f.file.endswith("Test.cpp") or "fixtures" in f.file or f.file.endswith("Fixture.cpp"):
+            continue
+        owner = f if f.kind != "lambda" else P.fns.get(f.d.get("parentfn"), f)
+        if not any(re.search(r"\b(Dir)?Fd\b", p_.get("type") or "") for p_ in owner.params):
+            continue
+        sinks = [i for i in f.calls(*_FD_CONSUMERS) if plain_name(f.nodes[i]) in _FD_CONSUMERS and f.nodes[i].get("args")]
+        if not sinks:
+            continue
+        ctx.use(f)
+        X = Expander(P, f)
+        for i in sinks:
+            n_sites += 1
+            a = f.nodes[i]["args"][0]
+            srcs = [X(a)]
+            an = f.nodes[f.strip(a)]
+            if an["k"] == "ref" and an.get("dk") == "local":
+                srcs = []
+                init, v = local_init(f, an["name"], must=False)
+                if v is not None and init is not None and init >= 0:
+                    srcs.append(X(init))
+                for w in local_writes(f, an["name"], must=False):
+                    wn = f.nodes[w]
+                    rhs = wn.get("r", (wn.get("args") or [None])[0])
+                    if rhs is not None:
+                        srcs.append(X(rhs))
+            # (an rvalue-reference parameter hands the descriptor over: `Fd&& fd` ... std::move(fd).fd() releases it)
+            owned_params = {p_["name"] for g_ in (f, owner) for p_ in g_.params if "&&" in (p_.get("type") or "")}
+            bad = [s_ for s_ in srcs if BORROWED.match(s_.replace("var:", "")) and re.match(r"^\(?param:(\w+)", s_.replace("var:", "")).group(1) not in owned_params]
+            ctx.check(not bad, "borrowed-fd-not-consumed:%s:%s" % (short(owner), plain_name(f.nodes[i])), "ownership (reaching definitions)", f.loc(i),
+                      "the descriptor handed to %s() is the function's own (dup/open), never the caller's" % plain_name(f.nodes[i]),
+                      "%s() can receive %s - the descriptor of a Fd the function only borrows: it is closed behind its owner's back, the cached "
+                      "cgroup context keeps the stale number and aliases whatever is opened next (another cgroup's cgroup.procs / cgroup.kill)" % (plain_name(f.nodes[i]), bad[0] if bad else ""))
+    ctx.counters["fd_consumer_sites"] = n_sites
+    ctx.floor("fd_consumer_sites", 1, "close()/fdopendir() sites in functions that take a Fd by reference (Fs::readDirAt)")
+
+
+def plain_name(n):
+    from ..program import plain
+    return plain(n.get("callee", "") or "").split("::")[-1]
